@@ -14,6 +14,7 @@ import (
 	"verif/mc/core"
 	"verif/mc/docgen"
 	"verif/mc/pdfx"
+	"verif/mc/strictpdf"
 )
 
 // C20: optimization never changes what a document shows.
@@ -144,6 +145,8 @@ func runC20(r *core.R) {
 		}
 		conf := model.NewDefaultConfiguration()
 		conf.ValidationMode = model.ValidationRelaxed
+		// plain containers, so that object counts of successive passes are comparable
+		conf.WriteObjectStream, conf.WriteXRefStream = false, false
 		var o1 bytes.Buffer
 		var oerr error
 		pv, _ := core.Try(func() { oerr = api.Optimize(bytes.NewReader(c.doc), &o1, conf) })
@@ -155,7 +158,8 @@ func runC20(r *core.R) {
 			r.Violation("optimize:failed:"+cls, fmt.Sprintf("Optimize(%s): %v %v", c.name, oerr, pv), rep)
 			return
 		}
-		after, mk1, n1, err := usedFingerprints(o1.Bytes())
+		after, mk1, _, err := usedFingerprints(o1.Bytes())
+		n1 := len(strictpdf.Parse(o1.Bytes()).Objects)
 		if err != nil {
 			r.Violation("optimize:output-unreadable:"+cls, fmt.Sprintf("%s: %v", c.name, err), rep)
 			return
@@ -177,8 +181,8 @@ func runC20(r *core.R) {
 			r.Violation("optimize:second-pass-failed:"+cls, fmt.Sprintf("%s: %v", c.name, err), rep)
 			return
 		}
-		_, _, n2, err := usedFingerprints(o2.Bytes())
-		if err != nil || n2 != n1 {
+		n2 := len(strictpdf.Parse(o2.Bytes()).Objects)
+		if n2 != n1 {
 			key := "optimize:not-idempotent:" + cls
 			if r.Want(key) {
 				r.Violation(key, fmt.Sprintf("%s: optimize(optimize(x)) has %d objects, optimize(x) has %d (%v)", c.name, n2, n1, err), rep)
